@@ -1282,9 +1282,14 @@ func (s *UtxoSweeper) handleNewInput(input *sweepInputMessage) error {
 		rbf:       rbfInfo,
 	}
 
-	// Set the starting fee rate if a previous sweeping tx is found.
+	// Set the starting fee rate if a previous sweeping tx is found, unless
+	// the caller asks for a higher one, so the next sweeping attempt starts
+	// from neither below the fee rate already offered nor below the one
+	// requested.
 	rbfInfo.WhenSome(func(info RBFInfo) {
-		pi.params.StartingFeeRate = fn.Some(info.FeeRate)
+		if info.FeeRate > pi.params.StartingFeeRate.UnwrapOr(0) {
+			pi.params.StartingFeeRate = fn.Some(info.FeeRate)
+		}
 	})
 
 	// Set the acutal deadline height.
